@@ -78,6 +78,11 @@ CHECKS = {
             '(a) random component texts (every RFC delimiter, %, %41, %zz, ;, +, &, =, space, controls, non-ASCII incl. combining and astral) placed in username/password/segments/query keys+values/fragment with registered and unregistered schemes, LDH/IDN/IPv4/IPv6 hosts and ports, built by from_parts and by attribute assignment; the fully quoted text must be ASCII, split by the RFC appendix-B regex into components whose characters are legal at that position, and re-parse to exactly the NFC inputs. Every run also enumerates the full matrix of ~75 significant strings x 6 components x 2 positions. (b) quote_*_part/unquote round trips and unquote against a reference decoder and urllib. (c) URIs and relative references derived from the RFC 3986 grammar: fully quoted (and, when no decoded component contains %, minimally quoted) render(parse) is a fixed point. (d) URL(text)/URL(bytes) return or raise URLParseError only; find_all_links (all option combinations) never raises.',
             'Trusts the hand-written RFC regexes and urllib.parse.unquote; hosts limited to IDNA-encodable names and IP literals; lone surrogates excluded; a pair with empty key and no value is not representable and not generated.',
             'DESIGN.md section 2, C06'),
+    'C07': ('exploration',
+            'differential testing against an independent text-level implementation of RFC 3986 5.2.2-5.2.4; RFC 5.4 examples with the RFC\'s own expected results; exhaustive enumeration of short reference paths',
+            'Hypothesis generates base URLs (schemes, name/IPv4/IPv6 hosts, userinfo, ports, dot-free paths with empty segments, trailing slash or empty path, query, fragment) and chains of 1-3 references (empty, fragment-only, query-only, path-absolute, path-relative over ".", "..", empty and named segments, absolute URLs). base.navigate(ref).to_text() must equal the result of the RFC pseudo-code (transform references, merge, remove_dot_segments written over strings) applied to base.to_text(), modulo "" == "/" under an authority; the result has no dot segments and is rooted, the base is unchanged (text and ==), navigate(URL(ref)) == navigate(ref), chains equal step-by-step resolution, normalize() is idempotent on arbitrary path_parts. Every run additionally replays the 39 in-domain examples of RFC 3986 5.4.1/5.4.2 with the RFC\'s expected strings (which also validates the reference) and enumerates all 24 576 reference paths of <=5 segments over {".", "..", "", "x"} (relative and absolute) against 12 base shapes.',
+            'Trusts the reference resolver (itself checked against the RFC examples on every run); references with an authority or with a scheme but no host are out of scope; alphabets are rendering-invariant.',
+            'DESIGN.md section 2, C07'),
 }
 
 NOT_YET = 'check not built yet in this revision of /verif (work in progress; see DESIGN.md section 8)'
